@@ -384,10 +384,12 @@ func (s *Session) EnableStreamManagement(o *Config) {
 		switch p := packet.(type) {
 		case stanza.SMEnabled:
 			// Server allows resumption or not using SMEnabled attribute "resume". We must read the server response
-			// and update config accordingly
+			// and update config accordingly. Only resumption is refused then: stream management itself is enabled
+			// on this stream (the server counts, acknowledges and asks for acknowledgements), so stanzas are still
+			// held until they are acknowledged.
 			b, err := strconv.ParseBool(p.Resume)
 			if err != nil || !b {
-				o.StreamManagementEnable = false
+				o.streamManagementResume = false
 			}
 			s.SMState = SMState{Id: p.Id, preferredReconAddr: p.Location}
 			s.SMState.UnAckQueue = q
